@@ -23,6 +23,12 @@ CHECKS = {
                      'graph, the Master conditions and the slave-after-Master order',
                 note='bounded: cluster size, ticks, deviations and faults as listed in the evidence; FIFO channels; atomic '
                      'handlers; OS threads, sockets and supervisord are replaced by the World harness'),
+    'C03': dict(engine='E1-cluster', category='model_checking', technique=E1, ref='DESIGN.md section 4, C03',
+                text='automatic distribution and start / restart application requests are explored over tiny rules files with '
+                     'every process behaviour (run, backoff, fatal, early exit, never answering, host lost) interleaved with '
+                     'ticks and deliveries; every emitted start request is judged against ground-truth process states, the '
+                     'sender\'s earlier requests and the starting failure strategy',
+                note='2-3 programs per application, 2 applications, N=2 (3 in the thorough tier), bounds in the evidence'),
     'C07': dict(engine='E1-cluster', category='model_checking', technique=E1, ref='DESIGN.md section 4, C07',
                 text='every schedule of ticks, deliveries, crashes, restarts (also quicker than detection), isolations, '
                      'rejoins and directed stalls within the bounds is executed on the real cores; a monitor per (observer, '
